@@ -27,8 +27,8 @@ ASSUMPTIONS = ["CPU generator only (no GPU in the sandbox)", "construction draws
 COUNTS = ("states = histories x seeds (each history is a distinct state: no merging); transitions = operations executed across the three runs; "
           "traces_validated_against_impl = histories whose three runs satisfied all comparisons")
 
-OPS = ["reinit", "sample", "sample_init", "stats", "sysstats", "fit", "fit_neg", "grad", "exact", "rotate", "metric", "save", "apply"]
-READONLY = {"sample", "sample_init", "stats", "sysstats", "grad", "exact", "rotate", "metric", "save", "apply"}
+OPS = ["reinit", "sample", "sample_one", "sample_init", "stats", "stats_one", "sysstats", "fit", "fit_neg", "grad", "exact", "rotate", "metric", "save", "apply"]
+READONLY = {"sample", "sample_one", "stats_one", "sample_init", "stats", "sysstats", "grad", "exact", "rotate", "metric", "save", "apply"}
 DATA = torch.tensor([[0.0, 1.0], [1.0, 1.0], [1.0, 0.0]], dtype=torch.double)
 BASES = np.array([list("ZZ"), list("XY"), list("YZ")])
 BASES_FIT = np.array([list("ZZ"), list("XY"), list("ZZ")])
@@ -76,6 +76,12 @@ def do(op, st, tmp):
         return None
     if op == "sample":
         return st.sample(k=3, num_samples=40)
+    if op == "sample_one":
+        a = st.sample(k=2)  # a single chain (the default num_samples)
+        b = st.sample(k=1, initial_state=DATA[0].clone())  # a single chain given as a vector
+        return [a, b]
+    if op == "stats_one":
+        return O.SigmaZ().statistics(st, num_samples=3, num_chains=1, burn_in=1, steps=1)
     if op == "sample_init":
         return st.sample(k=2, initial_state=DATA.clone())
     if op == "stats":
@@ -149,7 +155,7 @@ def check_history(acc, kind, hist, seed, tmp, flagged):
         flag(f"repro:raised:{e.kind}:{e.site}", e.tb)
         return
     acc.transitions += 3 * len(hist)
-    randomized = any(op in ("reinit", "sample", "sample_init", "stats", "sysstats", "fit", "fit_neg") for op in hist)
+    randomized = any(op in ("reinit", "sample", "sample_one", "stats_one", "sample_init", "stats", "sysstats", "fit", "fit_neg") for op in hist)
     acc.ev(1, nontrivial=randomized)
     ok = True
     if a != b:
